@@ -140,7 +140,11 @@ def family(r):
     for j in range(nf):
         body = r.choice([f"    d{j}.Setting = a + {j}", f"    d{j}.On = a\n    d{j}.Mode = a * 2", f"    if a > {j}:\n        d{j}.Setting = a\n    d{j}.Power = {j}"])
         ret = r.random() < 0.5
-        lines += [f"def f{j}(a):", body] + ([f"    return a + {j + 1}"] if ret else []) + [""]
+        tail = (not ret) and r.random() < 0.4
+        if tail:
+            # a helper used only as the last statement of f{j}: inlined there; with tail-call optimisation the call site is a tail call
+            lines += [f"def h{j}():", f"    d{j}.Lock = {j + 1}", ""]
+        lines += [f"def f{j}(a):", body] + ([f"    return a + {j + 1}"] if ret else []) + ([f"    h{j}()"] if tail else []) + [""]
         rets[j] = ret
     lines.append("x = db.Setting")
     live = set()
@@ -189,15 +193,15 @@ def run(tier: str, seed: int) -> int:
     r = rng_for(PROP, seed)
     failures, stats = [], {}
     known_ids = {f["id"] for f in chk.known}
-    steps = 3000 if tier == "quick" else 15000
+    steps = 3000 if tier == "quick" else 8000
     for name, src in whole.repo_sources():
         for opts in (whole.default_opts(inline_functions=False, append_version=False), whole.default_opts(append_version=False)):
             check_program(drv, chk, name, src, opts, [0.0, 1.0, 2.0, 3.0, 5.0], [1, 2], steps, failures, stats, known_ids)
-    for i in range(120 if tier == "quick" else 6000):
+    for i in range(120 if tier == "quick" else 1500):
         src, live = family(r)
         opts = whole.default_opts(append_version=False, inline_functions=r.random() < 0.5, use_push_pop_functions=r.random() < 0.3)
         check_program(drv, chk, f"family:{i}", src, opts, [0.0, 1.0, 2.0, 3.0, 5.0, 10.0], [r.randrange(1 << 30) for _ in range(2)], steps, failures, stats, known_ids, live_called=live)
-    for kind, n in [("terminating", 80 if tier == "quick" else 4000), ("funcs", 40 if tier == "quick" else 2000)]:
+    for kind, n in [("terminating", 80 if tier == "quick" else 800), ("funcs", 40 if tier == "quick" else 400)]:
         for i in range(n):
             g, prog, src, pool = whole.gen_program(r, kind)
             opts = whole.default_opts(append_version=False, inline_functions=False, use_push_pop_functions=r.random() < 0.3)
